@@ -451,6 +451,7 @@ func (w *Worker) runPathOnce(fn *ssa.Function, item WorkItem, retry bool) (bool,
 				}
 			}
 		}()
+		defer w.schedTeardown()
 		w.callSSA(nil, 0, fn, nil, nil)
 	}()
 	if outcome == "ok" && p.reached {
